@@ -122,9 +122,9 @@ def CM4.apply (cm : CM4) (m : List Nat) : Option CM4 :=
                            else (data.drop 8).take 4 ++ cm.dst.drop 4) }
   else some cm
 
-def CM4.applyAll : CM4 → List (List Nat) → Option CM4
-  | cm, [] => some cm
-  | cm, m :: ms => match cm.apply m with | none => none | some cm' => cm'.applyAll ms
+/-- The message loop of `Parse`; `none` once a nil parser has been called. -/
+def CM4.applyAll (cm : CM4) (ms : List (List Nat)) : Option CM4 :=
+  ms.foldl (fun acc m => acc.bind (fun c => c.apply m)) (some cm)
 
 /-- `cm.Parse(b)` on a given (usually zero) message. -/
 def CM4.parse (cm : CM4) (b : List Nat) : PR CM4 :=
